@@ -65,6 +65,8 @@ LAYOUT = [
     "def nada_main():\n    p = Party(name=\"P\")\n    x = SecretInteger(Input(name=\"x\", party=p))\n    z = (x\n\n*\n\nx)\n    w = (1 <\n\n'a')\n    return",
     "from nada_dsl import *\n\ndef nada_main():\n    p = Party(name=\"P\")\n    x = SecretInteger(Input(name=\"x\", party=p))\n"
     "    (q, r) = (lambda v: v, eval(\"x\"))\n    a = b = p.name\n    return [Output(x, \"o\", p)]\n",
+    # an operator expression continued on the next line, the right operand (or the operator) in column 0
+    "from nada_dsl import *\n\ndef nada_main():\n    a = 1\n    nn = 2\n    d = (a +\nnn)\n    e = (a\n+ nn)\n    f = (True and\nnn)\n    g = (a <\nnn)\n    h = (not\nnn)\n    return []\n",
 ]
 
 
